@@ -179,7 +179,7 @@ def norm_msg(s):
 def fatal_line(log):
     """The line a dying process left: log.Fatal / log.Panic / panic message."""
     for l in log:
-        m = re.search(r'\.go:\d+: (Panic: .*)$', l)
+        m = re.search(r'(?:\.go:\d+: |\d\d:\d\d:\d\d )(Panic: .*)$', l)
         if m:
             return m.group(1)
     for l in reversed(log):
